@@ -67,10 +67,15 @@ def find_def(tree: ast.Module, qualname: str):
     body = tree.body
     node = None
     for i, p in enumerate(parts):
-        found = None
+        # 'name@k' selects the k-th (0-based) definition of that name in the body: a property getter and its setter
+        # are two defs of ONE name (`@property def x` ... `@x.setter def x`); without '@k' the last one wins, as before
+        p, _, nth = p.partition('@')
+        found, seen = None, 0
         for n in body:
             if isinstance(n, (ast.FunctionDef, ast.AsyncFunctionDef, ast.ClassDef)) and n.name == p:
-                found = n   # the last definition wins, as in Python
+                if nth == '' or seen == int(nth):
+                    found = n   # the last definition wins, as in Python
+                seen += 1
         if found is None:
             raise Unsupported(f'definition {qualname!r} not found in module (renamed or removed?)')
         node = found
